@@ -239,6 +239,93 @@ fn run_case(ep: &LiveEndpoint, origin_l: &TcpListener, c: &Case) -> Result<(), S
     }
 }
 
+/// a failure on either side tears the whole tunnel down: the client resets its stream in the middle of an idle or busy
+/// tunnel ('r': the origin's connection must be closed), or the origin aborts its connection with a TCP reset ('x': the
+/// client's stream must end, and what it got must be a prefix of what the origin sent)
+fn run_failure_case(ep: &LiveEndpoint, origin_l: &TcpListener, who: char, busy: bool) -> Result<(), String> {
+    let target = origin_l.local_addr().unwrap().to_string();
+    let mut cl = H3Client::connect(ep.addr, Some("localhost"), &[b"h3"], 1 << 20, Duration::from_secs(3)).map_err(|e| format!("QUIC handshake: {:?}", e))?;
+    let id = cl.request("CONNECT", None, &target, None, &[], false).ok_or("the request stream could not be opened")?;
+    let t0 = Instant::now();
+    let mut origin = loop {
+        cl.pump();
+        if let Ok((s, _)) = origin_l.accept() {
+            break s;
+        }
+        if t0.elapsed() > Duration::from_secs(3) {
+            return Err("the origin saw no connection".to_string());
+        }
+        std::thread::sleep(Duration::from_millis(1));
+    };
+    origin.set_nonblocking(true).map_err(|e| e.to_string())?;
+    cl.wait(Duration::from_secs(2), |c| c.streams.get(&id).map(|s| s.status.is_some()).unwrap_or(false));
+    if cl.stream(id).status != Some(200) {
+        return Err(format!("CONNECT was answered {:?}", cl.stream(id).status));
+    }
+    // some traffic both ways first
+    let up = pattern(5000, 0x31);
+    let down = pattern(7000, 0x47);
+    let (mut uo, mut dn_o, mut got) = (0usize, 0usize, 0usize);
+    let mut buf = vec![0u8; 65536];
+    let t0 = Instant::now();
+    while (got < up.len() || cl.stream(id).body.len() < down.len()) && t0.elapsed() < Duration::from_secs(4) {
+        if uo < up.len() {
+            uo += cl.send_body(id, &up[uo..], false).unwrap_or(0);
+        }
+        if dn_o < down.len() {
+            if let Ok(n) = origin.write(&down[dn_o..]) {
+                dn_o += n;
+            }
+        }
+        if let Ok(n) = origin.read(&mut buf) {
+            got += n;
+        }
+        cl.pump();
+    }
+    if got != up.len() || cl.stream(id).body != down {
+        return Err("the tunnel did not relay the first bytes".to_string());
+    }
+    if busy {
+        // the other direction is in the middle of a transfer when the failure happens
+        if who == 'r' {
+            let _ = origin.write(&pattern(30_000, 0x01));
+        } else {
+            let _ = cl.send_body(id, &pattern(30_000, 0x02), false);
+        }
+    }
+    if who == 'r' {
+        cl.reset_stream(id, 0x10c);
+        // the origin must see its connection closed (end of stream or reset), not a tunnel that stays half open
+        let t0 = Instant::now();
+        loop {
+            cl.pump();
+            match origin.read(&mut buf) {
+                Ok(0) => return Ok(()),
+                Ok(_) => {}
+                Err(e) if e.kind() == std::io::ErrorKind::WouldBlock => {}
+                Err(_) => return Ok(()),
+            }
+            if t0.elapsed() > Duration::from_secs(3) {
+                return Err("the client reset its stream, 3 s later the origin's connection was still open (the failure did not tear the tunnel down)".to_string());
+            }
+            std::thread::sleep(Duration::from_millis(2));
+        }
+    } else {
+        let sock = socket2::SockRef::from(&origin);
+        let _ = sock.set_linger(Some(Duration::from_secs(0)));
+        drop(origin);
+        let ended = cl.wait(Duration::from_secs(3), |c| c.streams.get(&id).map(|s| s.finished || s.reset.is_some()).unwrap_or(false) || c.conn.is_closed());
+        let st = cl.stream(id);
+        if !ended {
+            return Err("the origin aborted its connection, 3 s later the client's stream was still open (the failure did not tear the tunnel down)".to_string());
+        }
+        if !st.body.starts_with(&down) || st.body.len() > down.len() {
+            return Err(format!("after the origin aborted the client holds {} bytes that are not what the origin sent", st.body.len()));
+        }
+        Ok(())
+    }
+}
+
 pub fn run(ctx: &mut Ctx) {
     quiet_panics();
     let Some(ep) = LiveEndpoint::start(make_core) else {
@@ -267,6 +354,19 @@ pub fn run(ctx: &mut Ctx) {
     }
     if !ctx.thorough() {
         cases = cases.into_iter().enumerate().filter(|(i, _)| i % 3 == (ctx.seed % 3) as usize).map(|(_, c)| c).collect();
+    }
+    for (who, busy) in [('r', false), ('r', true), ('x', false), ('x', true)] {
+        ctx.stat("live_h3_failing_tunnels");
+        let desc = format!(
+            "CONNECT over HTTP/3, 5000 bytes up and 7000 down, then {} while the other direction is {}",
+            if who == 'r' { "the client resets its stream" } else { "the origin aborts its connection (TCP reset)" },
+            if busy { "transferring" } else { "idle" }
+        );
+        match catch(std::panic::AssertUnwindSafe(|| run_failure_case(&ep, &origin_l, who, busy))) {
+            Ok(Ok(())) => {}
+            Ok(Err(e)) => ctx.oracle_failure("live_tunnel", &format!("{}: {}", desc, e)),
+            Err(m) => ctx.oracle_failure("panic", &format!("{}: panicked ({})", desc, m)),
+        }
     }
     let only: Option<usize> = std::env::var("C02H3_ONLY").ok().and_then(|x| x.parse().ok());
     for (ci, c) in cases.into_iter().enumerate() {
